@@ -333,6 +333,40 @@ Definition outcome_of_send (e : send_end) : outcome :=
   | SendPermanent | SendNoMoreRetries | SendCtxDone => OFailed
   end.
 
+(* retry_sender.go Send as a function of what the export attempts return and of WHEN Shutdown is
+   called.  [rs]: results of the successive attempts (the back-off between two listed attempts
+   elapses); [stop = Some s]: Shutdown is called when s attempts have started (0 = before Send,
+   k+1 = during attempt k or during the back-off that follows it; closing stopCh is sticky and seen
+   by every Send); [tail]: what ends the back-off after the last listed attempt when nothing else
+   does (SendNoMoreRetries: the max-elapsed-time test, which the code makes BEFORE it waits;
+   SendCtxDone: the context).  Result: the end of Send and the number of attempts started. *)
+Inductive attempt := AOk | APermanent | ARetryable.
+
+Definition stopped_by (stop : option nat) (started : nat) : bool :=
+  match stop with Some s => Nat.leb s started | None => false end.
+
+Fixpoint send_model (rs : list attempt) (stop : option nat) (tail : send_end) (started : nat)
+  : send_end * nat :=
+  match rs with
+  | [] => (tail, started)
+  | r :: t =>
+      let started' := S started in
+      match r with
+      | AOk => (SendOk, started')
+      | APermanent => (SendPermanent, started')
+      | ARetryable =>
+          match t, tail with
+          | [], SendNoMoreRetries => (SendNoMoreRetries, started')     (* tested before the wait *)
+          | _, _ =>
+              if stopped_by stop started' then (SendStopped, started')  (* <-rs.stopCh *)
+              else match t with
+                   | [] => (tail, started')
+                   | _ => send_model t stop tail started'
+                   end
+          end
+      end
+  end.
+
 (* func (pq) onDone *)
 Definition onDone (c : cfg) (v : vol) (index : N) (elSize : Z) (o : outcome) : act vol :=
   let v1 := set_q v (Z.max 0 (qsize v - elSize)) in
